@@ -365,7 +365,7 @@ OPTION_SETS = [{}, {"style": "compressed"}, {"unicode": False}, {"charset": Fals
 def with_opts(rng, syntax=None):
     o = dict(rng.choice(OPTION_SETS))
     o["syntax"] = syntax or rng.choice(["scss", "scss", "sass", "sass", "css"])
-    o["quiet"] = True
+    o["quiet"] = rng.random() < 0.7
     return o
 
 
